@@ -15,7 +15,7 @@ use ark_serialize::CanonicalDeserialize;
 use ark_std::rand::Rng;
 use std::collections::{BTreeMap, BTreeSet};
 
-pub const KINDS: &[&str] = &["false-subset", "cancel-in-group", "cancel-across-groups", "proofs-permuted", "proofs-truncated", "proofs-extended", "proofs-duplicated"];
+pub const KINDS: &[&str] = &["false-subset", "swap-in-group", "cancel-in-group", "cancel-across-groups", "proofs-permuted", "proofs-truncated", "proofs-extended", "proofs-duplicated"];
 pub const RNG_STREAMS: u64 = 4;
 
 pub fn generate(run_seed: u64) -> Scenario {
@@ -57,6 +57,15 @@ pub fn generate(run_seed: u64) -> Scenario {
                 }
             }
             "cancel-in-group" => {
+                for a in 0..n {
+                    for b in (a + 1)..n {
+                        if point_of(&op, a) == point_of(&op, b) && g.r.gen_bool(0.4) {
+                            faults.push(Fault { kind: k.into(), op: 0, target: a, aux: b, param: g.r.gen() });
+                        }
+                    }
+                }
+            }
+            "swap-in-group" => {
                 for a in 0..n {
                     for b in (a + 1)..n {
                         if point_of(&op, a) == point_of(&op, b) && g.r.gen_bool(0.4) {
@@ -188,7 +197,7 @@ pub fn run<S: Scheme>(scn: &Scenario, log: &EventLog) -> RunResult {
     let Some(mut sess) = start_or_vacuous::<S>(scn, log, &mut res) else { return res };
     let op = &scn.ops[0];
     let Op::Batch { queries } = op else { res.harness = Some("C05 scenario without a batch op".into()); return res };
-    let Some(claim) = honest_claim(&mut sess, op, 0, &mut res) else { return res };
+    let Some(claim) = honest_claim_unverified(&mut sess, op, 0, &mut res) else { return res };
     let shape = op_shape(op, scn);
     let points = sess.points.clone();
     let lc_perm = 0;
@@ -230,6 +239,17 @@ pub fn run<S: Scheme>(scn: &Scenario, log: &EventLog) -> RunResult {
                     let d = delta(0);
                     any_false = true;
                     falsify(&mut bad, f.target, d) && falsify(&mut bad, f.aux, -d)
+                }
+            }
+            "swap-in-group" => {
+                // the claimed values of two polynomials at one point label change places
+                if f.target >= n || f.aux >= n || f.target == f.aux || point_of(op, f.target) != point_of(op, f.aux) { false } else {
+                    let va = value_at::<S>(&mut bad, op, scn, &points, f.target).map(|v| *v);
+                    let vb = value_at::<S>(&mut bad, op, scn, &points, f.aux).map(|v| *v);
+                    match (va, vb) {
+                        (Some(va), Some(vb)) if va != vb => { any_false = true; falsify(&mut bad, f.target, vb - va) && falsify(&mut bad, f.aux, va - vb) }
+                        _ => false,
+                    }
                 }
             }
             "cancel-across-groups" => {
